@@ -402,7 +402,72 @@ func Run(r *fw.Run) {
 	run("mod", modFiles)
 	run("mod-lax", modFiles)
 	run("work", workFiles)
+	directiveSweep(r)
 	r.Sample(caseT{Layer: "mod", Fix: true, Input: strconv.QuoteToASCII(modFiles[len(modFiles)/3].Text)})
+}
+
+// ValuePieces are what quoted values are built from in directiveSweep: letters of one, two and three bytes,
+// an invalid byte, white space, and every character or pair the lexer gives a meaning to.
+var ValuePieces = []string{"a", "é", "日", "\xff", " ", "/", "*", "//", "/*", "*/", "\"", "'", "`", "(", ")", ",", "=", ">", "\t", ";", "[", "]", "\\", "\u00a0"}
+
+// directiveSweep: every value of up to 3 pieces, written as an interpreted and (where it can be) as a raw
+// string, in the places of a file where the typed parsers read a quoted value and write it back their own
+// way (module path, replacement directory, use directory): what is read after formatting is what was read
+// before, and formatting is idempotent.
+func directiveSweep(r *fw.Run) {
+	var vals []string
+	var rec func(cur string, n int)
+	rec = func(cur string, n int) {
+		if n > 0 {
+			vals = append(vals, cur)
+		}
+		if n == 3 {
+			return
+		}
+		for _, p := range ValuePieces {
+			rec(cur+p, n+1)
+		}
+	}
+	rec("", 0)
+	type slot struct{ layer, pre, lead, post string }
+	slots := []slot{
+		{"mod", "module example.com/m\n\nreplace a.com/x => ", "./", "\n"},
+		{"mod", "module example.com/m\n\nreplace (\n\tb.com/y v1.0.0 => ../y\n\ta.com/x => ", "../d", " // c\n)\n"},
+		{"mod", "module ", "example.com/", "\n\ngo 1.21\n"},
+		{"work", "go 1.21\n\nuse ", "./", "\n"},
+		{"work", "go 1.21\n\nuse (\n\t./a\n\t", "./d", " // c\n)\n"},
+	}
+	r.Bounds["quoted_value_sweep"] = fmt.Sprintf("%d values (<= 3 pieces of %d) x %d places x {interpreted, raw} string", len(vals), len(ValuePieces), len(slots))
+	fw.Parallel(16, func(sh int) {
+		l := fw.NewLocal()
+		defer r.Merge(l)
+		for i := sh; i < len(vals); i += 16 {
+			for _, sl := range slots {
+				v := sl.lead + vals[i]
+				forms := []string{strconv.Quote(v)}
+				if !strings.ContainsAny(v, "`\n") {
+					forms = append(forms, "`"+v+"`")
+				}
+				for _, q := range forms {
+					text := sl.pre + q + sl.post
+					l.States++
+					l.Transitions++
+					l.Execs++
+					msg, acc := directiveCase(sl.layer, []byte(text), false)
+					if acc {
+						l.Nontrivial++
+						l.Outcomes["value-sweep:accepted"]++
+					} else {
+						l.Outcomes["value-sweep:rejected"]++
+					}
+					if msg != "" {
+						c := caseT{Layer: sl.layer, Input: strconv.QuoteToASCII(text)}
+						r.Violation(c.key(), msg, c)
+					}
+				}
+			}
+		}
+	})
 }
 
 func Replay(r *fw.Run, raw json.RawMessage) {
